@@ -426,19 +426,24 @@ class MacroProgram(ElementProgram):
                 return nodes.Define(
                     [nodes.Alias(["default"], self.default_marker)],
                     nodes.Condition(
-                        nodes.And([
-                            nodes.BinOp(
-                                case_switch, nodes.IsNot,
-                                self._cancel_marker),
-                            nodes.Or([
-                                nodes.BinOp(
-                                    value, nodes.Equals, case_switch),
-                                nodes.BinOp(
-                                    value, nodes.Equals, self.default_marker)
-                            ])
-                        ]),
-                        nodes.Cancel(
-                            [case_switch], node, self._cancel_marker),
+                        nodes.BinOp(
+                            case_switch, nodes.IsNot,
+                            self._cancel_marker),
+                        # Evaluate the case expression only once
+                        nodes.Cache(
+                            [value],
+                            nodes.Condition(
+                                nodes.Or([
+                                    nodes.BinOp(
+                                        value, nodes.Equals, case_switch),
+                                    nodes.BinOp(
+                                        value, nodes.Equals,
+                                        self.default_marker)
+                                ]),
+                                nodes.Cancel(
+                                    [case_switch], node,
+                                    self._cancel_marker),
+                            )),
                     ))
 
         # tal:repeat
